@@ -13,6 +13,7 @@
 package main
 
 import (
+	"context"
 	"crypto/sha256"
 	"fmt"
 	"net/url"
@@ -416,6 +417,20 @@ func batch(r *vh.Run, i int) {
 		}
 		if flush() {
 			ok = false
+		}
+		if ok && rng.Intn(6) == 0 {
+			// a collection of one repository addresses that repository only: what it reads, writes and removes
+			// must be its own layout, never the directory of a repository nested below it
+			g := names[rng.Intn(len(names))]
+			e.mu.Lock()
+			e.addr, e.cur = []string{g}, "collection of "+g
+			e.mu.Unlock()
+			_ = srv.VerifGC(context.Background(), g)
+			r.Count("single_repository_collections", 1)
+			e.trace = append(e.trace, "collect "+g)
+			if flush() || !probe() {
+				ok = false
+			}
 		}
 		if ok && op%4 == 0 {
 			ok = probe()
